@@ -275,6 +275,7 @@ func (c *Ctx) Exec(o *Op) (obs Obs) {
 		}
 		c.In = inst.Start(o.Root, opts)
 		atomic.StoreUint32(&frontend.Queryable, 1)
+		ResetLoopSeen()
 		if o.LoopWalMs > 0 {
 			// what internal/di/wal.go does when BackgroundSync is on, with configurable periods
 			rot := o.Rotate
@@ -283,7 +284,8 @@ func (c *Ctx) Exec(o *Op) (obs Obs) {
 			}
 			go c.In.WAL.SyncWAL(time.Duration(o.LoopWalMs)*time.Millisecond, time.Duration(o.LoopPrimMs)*time.Millisecond, rot)
 			c.In.WAL.IncrementWaitGroup()
-			for i := 0; i < 200 && !LoopRunning(); i++ {
+			// SyncWAL announces itself through its first tickCheck (walRefresh/100)
+			for i := 0; i < 2000 && !LoopRunning(); i++ {
 				time.Sleep(time.Millisecond)
 			}
 		}
